@@ -563,6 +563,7 @@ pub fn exec_case_main<P: Property>(tier: Tier) -> ! {
     let mut s = String::new();
     std::io::stdin().read_to_string(&mut s).expect("stdin");
     let v: serde_json::Value = serde_json::from_str(&s).expect("case json");
+    panic::LOUD.store(true, std::sync::atomic::Ordering::SeqCst);
     // the default hook stays audible here: the supervisor reads stderr to classify aborts
     let obs = worker::replay_case::<P>(tier, &v);
     let rep = ChildReport { failures: obs.failures, nontrivial: obs.nontrivial };
